@@ -255,18 +255,18 @@ Section AfterRegistration.
   Qed.
 
   (* ... and (in the repaired variant) asking returns m *)
-  Lemma get_fixed : v = Fixed -> snd (cstep v st2 (OpGet (Some c))) = OPtr (PMisc m).
+  Lemma get_fixed : get_returns_misc v = true -> snd (cstep v st2 (OpGet (Some c))) = OPtr (PMisc m).
   Proof.
-    intros Hv. destruct registered_now as [x [Hx [Hh Hm]]]. rewrite Hv. cbn. rewrite Hx. cbn.
-    rewrite Hm. reflexivity.
+    intros Hv. destruct registered_now as [x [Hx [Hh Hm]]]. cbn. rewrite Hx. cbn.
+    unfold get_result. rewrite Hv, Hm. reflexivity.
   Qed.
 
   (* ... whereas the code as it is returns the handler's address *)
-  Lemma get_current : v = Current ->
+  Lemma get_current : get_returns_misc v = false ->
     snd (cstep v st2 (OpGet (Some c))) = OPtr (match h with Some k => PHandler k | None => PDefault end).
   Proof.
-    intros Hv. destruct registered_now as [x [Hx [Hh Hm]]]. rewrite Hv. cbn. rewrite Hx. cbn.
-    rewrite Hh. reflexivity.
+    intros Hv. destruct registered_now as [x [Hx [Hh Hm]]]. cbn. rewrite Hx. cbn.
+    unfold get_result. rewrite Hv, Hh. reflexivity.
   Qed.
 End AfterRegistration.
 
